@@ -197,6 +197,23 @@ def r16_3(ctx):
                 ctx.check(ok, f.fq, short(x), f"{m.relpath}:{x.lineno}", f"omitted items = len(obj) - {sorted(bounds)} (the islice bound), only when exceeded",
                           f"the abbreviation marker reports `{norm(expr)}` omitted items, but the items shown are limited by islice(..., {sorted(bounds)}) of len(obj) items (or the marker is not guarded by len(obj) > that bound): the count does not match what was left out")
     ctx.check(found, f.fq, "abbreviation marker", f.where, "abbreviation marker present", "no '... +N' marker is appended when max_length cuts the container")
+    # the cut and the marker answer to the same condition: the marker appears when `N is not None and len(obj) > N`; the islice that
+    # does the cutting must then be in force for every N that is not None - a truthiness test (`if N:`) skips it for N == 0, all items
+    # are shown AND reported as omitted
+    for c in islices:
+        if len(c.args) != 2:
+            continue
+        b = norm(c.args[1])
+        facts = enclosing_facts(outer, c, {})
+        where = f"{m.relpath}:{c.lineno}"
+        if facts.get(f"{b} is not None") is True or facts.get(f"{b} is None") is False:
+            ctx.ok(where, f"islice applies whenever `{b}` is not None", f.fq)
+        elif facts.get(b) is True or facts.get(f"{b} > 0") is True:
+            ctx.violation(f.fq, short(c), where, f"`{short(c)}` is applied only when `{b}` is truthy, while the '... +N' marker is written whenever `{b} is not None and len(obj) > {b}`: with {b}=0 every item is shown and all of them are reported as omitted ([1, 2, 3] prints as '[1, 2, 3, ... +3]')")
+        elif not any(b in k for k in facts):
+            ctx.ok(where, f"islice(.., {b}) is unconditional (None means no limit)", f.fq)
+        else:
+            raise AnalysisError(f"pretty.traverse: `{short(c)}` is guarded by {sorted(k for k in facts if b in k)}; cannot tell whether it is in force whenever the marker is written")
     # strings
     td = single_defs(tr.node)
     ok = False
